@@ -167,26 +167,50 @@ def joinWith (sep : Bytes) : List Bytes → Bytes
   | [x] => x
   | x :: y :: rest => x ++ sep ++ joinWith sep (y :: rest)
 
-/-- replacement texts as token lists: `&`, `\&`, `\\`, any other byte -/
+/-- replacement texts as token lists: `&`, `\\&`, `\\\\`, a backslash before any other byte, a backslash at the very end,
+any other byte -/
 inductive RTok where
   | amp | escAmp | escBs
   | text (b : UInt8)
+  | bsOther (c : UInt8)
+  | bsEnd
+  deriving DecidableEq, Repr
 
 def RTok.render : RTok → Bytes
   | .amp => [38]
   | .escAmp => [92, 38]
   | .escBs => [92, 92]
   | .text b => [b]
+  | .bsOther c => [92, c]
+  | .bsEnd => [92]
 
+/-- what the token contributes to the replacement: the match, a literal `&`, one backslash; every other token stands
+for itself (the backslash of `\\c` and a final backslash are kept) -/
 def RTok.meaning (m : Bytes) : RTok → Bytes
   | .amp => m
   | .escAmp => [38]
   | .escBs => [92]
   | .text b => [b]
+  | .bsOther c => [92, c]
+  | .bsEnd => [92]
 
+/-- a token that may stand anywhere in a token list: `text`/`bsOther` carry a byte other than `&` and `\\`;
+`bsEnd` is excluded (it is only a token at the very end — `tokenize` puts it there) -/
 def RTok.ok : RTok → Prop
   | .text b => b ≠ 38 ∧ b ≠ 92
+  | .bsOther c => c ≠ 38 ∧ c ≠ 92
+  | .bsEnd => False
   | _ => True
+
+/-- the tokenisation of an arbitrary replacement text (total; same scan as the callback's loop) -/
+def tokenize : Bytes → List RTok
+  | [] => []
+  | 38 :: r => .amp :: tokenize r
+  | [92] => [.bsEnd]
+  | 92 :: 38 :: r => .escAmp :: tokenize r
+  | 92 :: 92 :: r => .escBs :: tokenize r
+  | 92 :: c :: r => .bsOther c :: tokenize r
+  | c :: r => .text c :: tokenize r
 
 /-- (a superset of) the finite float64 values m·2^e, |m| < 2^53: the integers, and the dyadic fractions with a 53-bit numerator -/
 def IsFloat64Value (q : Rat) : Prop :=
@@ -223,6 +247,60 @@ def compileAll {R : Type} (compile : Bytes → Option R) (longest : R → R) (li
     let r := compileRegex compile longest limit cache x
     let rest := compileAll compile longest limit r.2 xs
     (r.1 :: rest.1, rest.2)
+
+/-- pieces and separators alternately: `p0 ++ m1 ++ p1 ++ m2 ++ …`; a list that runs out contributes nothing more -/
+def weave : List Bytes → List Bytes → Bytes
+  | p :: ps, m :: ms => p ++ m ++ weave ps ms
+  | ps, [] => ps.flatten
+  | [], ms => ms.flatten
+
+/-- the texts of the matches `regexp.Split` cuts at: every match except one that ends at offset 0 (an empty match at the
+very start produces no piece) -/
+def cutTexts (s : Bytes) (ms : List (Nat × Nat)) : List Bytes :=
+  (ms.filter fun p => p.2 ≠ 0).map fun p => (s.drop p.1).take (p.2 - p.1)
+
+/-- where the last match starts (`e` when there is none) -/
+def lastStart (e : Nat) : List (Nat × Nat) → Nat
+  | [] => e
+  | (a, _) :: ms => lastStart a ms
+
+/-! ## split with `" "` (`strings.Fields`) and tolower / toupper (`strings.ToLower/ToUpper`) -/
+
+/-- `unicode.IsSpace` on one element of the rune decomposition: the six ASCII blanks, U+0085, U+00A0, U+1680, U+2000–U+200A,
+U+2028, U+2029, U+202F, U+205F, U+3000. An invalid byte decodes to U+FFFD, which is not a space. -/
+def isSpaceRune (r : Bytes) : Bool :=
+  match r with
+  | [b] => (9 ≤ b && b ≤ 13) || b == 32
+  | [0xC2, b] => b == 0x85 || b == 0xA0
+  | [0xE1, 0x9A, 0x80] => true
+  | [0xE2, 0x80, b] => (0x80 ≤ b && b ≤ 0x8A) || b == 0xA8 || b == 0xA9 || b == 0xAF
+  | [0xE2, 0x81, 0x9F] => true
+  | [0xE3, 0x80, 0x80] => true
+  | _ => false
+
+/-- the field loop of `strings.FieldsFunc`: maximal runs of elements that are not separators (`cur` = the run being built) -/
+def groupsLoop {α : Type} (p : α → Bool) : List α → List α → List (List α)
+  | [], cur => if cur.isEmpty then [] else [cur]
+  | x :: xs, cur =>
+    if p x then (if cur.isEmpty then groupsLoop p xs [] else cur :: groupsLoop p xs [])
+    else groupsLoop p xs (cur ++ [x])
+
+/-- `strings.Fields(s)` — what `split(s, a, " ")` stores (the ASCII fast path of Go agrees with the general one) -/
+def stringsFields (s : Bytes) : List Bytes := (groupsLoop isSpaceRune (runes s) []).map List.flatten
+
+def asciiLower (b : UInt8) : UInt8 := if 65 ≤ b ∧ b ≤ 90 then b + 32 else b
+def asciiUpper (b : UInt8) : UInt8 := if 97 ≤ b ∧ b ≤ 122 then b - 32 else b
+
+/-- one element of the rune decomposition under `strings.Map(unicode.ToLower/ToUpper)`: ASCII by the table, an invalid byte
+becomes U+FFFD (EF BF BD), a valid multi-byte rune whatever Go's Unicode tables say (`uni`, abstract) -/
+def caseRune (tbl : UInt8 → UInt8) (uni : Bytes → Bytes) : Bytes → Bytes
+  | [b] => if b < 0x80 then [tbl b] else [0xEF, 0xBF, 0xBD]
+  | r => uni r
+
+/-- `strings.ToLower` / `strings.ToUpper` (used by tolower/toupper in byte mode and in character mode alike):
+all-ASCII strings bytewise, anything else rune by rune -/
+def mapCase (tbl : UInt8 → UInt8) (uni : Bytes → Bytes) (s : Bytes) : Bytes :=
+  if s.all (· < 0x80) then s.map tbl else ((runes s).map (caseRune tbl uni)).flatten
 
 /-! ## index -/
 
